@@ -76,6 +76,10 @@ def real_arg(d):
     k = d[0]
     if k == "F":
         return np.array([_flt(t) for t in d[1]], dtype=np.float64)
+    if k == "Fcol":      # 1-D in the model, a single trailing axis of length 1 for the real kernel
+        return np.array([_flt(t) for t in d[1]], dtype=np.float64).reshape(-1, 1)
+    if k == "F2":
+        return np.array([_flt(t) for t in d[2]], dtype=np.float64).reshape(-1, d[1])
     if k == "I":
         return np.array(d[1], dtype=np.int64)
     if k == "B":
@@ -101,6 +105,10 @@ def model_arg(d):
     k = d[0]
     if k in ("F", "I", "B"):
         return k + "[" + ",".join(_cell(t) for t in d[1]) + "]"
+    if k == "Fcol":
+        return "F[" + ",".join(_cell(t) for t in d[1]) + "]"
+    if k == "F2":
+        return f"F2:{d[1]}[" + ",".join(_cell(t) for t in d[2]) + "]"
     if k in ("f", "i", "b"):
         return f"{k}:{_cell(d[1])}"
     if k == "tag":
@@ -122,6 +130,8 @@ def canon_real(v):
     for x in vals:
         if isinstance(x, np.ndarray):
             kind = {"i": "I", "u": "I", "f": "F", "b": "B"}[x.dtype.kind]
+            if x.ndim == 3 and x.shape[2] == 1:      # collapsed trailing axis
+                x = x.reshape(x.shape[0], x.shape[1])
             shape = tuple(int(s) for s in x.shape)
             cells = [canon_scalar(kind, c) for c in x.reshape(-1).tolist()]
             out.append((kind, shape, cells))
@@ -421,6 +431,20 @@ def g_perievent(rng):
             ("F", s), ("F", e), ("I", [rng.randrange(0, 3), rng.randrange(0, 3)])]
 
 
+def g_trigger_average(rng):
+    m = rng.randrange(0, 3)
+    s, e = r_iset_half(rng, m)
+    ta = r_sorted(rng, rng.randrange(0, 5), 7)
+    idx, _ = restrict_py(ta, s, e)
+    ta = [ta[i] for i in idx]                       # bin centres inside the epochs
+    N = rng.randrange(1, 3)
+    ca = [rng.randrange(0, 3) * 1_000_000_000 for _ in range(len(ta) * N)]
+    tt = r_sorted(rng, rng.randrange(0, 5), 7)
+    da = r_any(rng, len(tt), 4)
+    return [("F", ta), ("F2", N, ca), ("F", tt), ("Fcol", da), ("F", s), ("F", e),
+            ("I", [rng.randrange(0, 3), rng.randrange(0, 3)]), ("f", rng.choice([U, 2 * U]))]
+
+
 GENERATORS = {
     "jitrestrict": g_scan,
     "jitrestrict_with_count": g_restrict_with_count,
@@ -438,6 +462,7 @@ GENERATORS = {
     "_jitcontinuous_perievent": g_perievent,
     "_jitbin_array": g_bin_array,
     "_overlap_split": g_overlap_split,
+    "_jitperievent_trigger_average": g_trigger_average,
 }
 
 
